@@ -87,3 +87,40 @@ _TRACE = []
 
 def trace():
     return tuple(_TRACE)
+
+
+# ghost call trace (natively maintained by the replay driver's stubs)
+def tlen():
+    return len(_TRACE)
+
+
+def ev_kind(i):
+    return _TRACE[i][0]
+
+
+def ev_callee(i):
+    return _TRACE[i][1]
+
+
+def ev_args(i):
+    return _TRACE[i][2]
+
+
+def ev_kwargs(i):
+    return _TRACE[i][3]
+
+
+def ev_outcome(i):
+    return _TRACE[i][4]
+
+
+def ev_value(i):
+    return _TRACE[i][5]
+
+
+def bound_method(obj, name):
+    return getattr(obj, name)
+
+
+def at_entry(x):
+    return x
